@@ -26,6 +26,17 @@ NORM = z3.Function('Norm', z3.IntSort(), z3.IntSort(), z3.RealSort())
 ZERO = z3.RealVal(0)
 
 
+def _pack(col, keep):
+    """C02 re-uses the explorations of this module for the clauses that say WHICH operator the wrappers apply (keep: names of those clauses)"""
+    if keep is not None:
+        col.results = [d for d in col.results if any(k in d['id'] for k in keep)]
+    return col.pack()
+
+
+OPERATOR_CLAUSES = ('operator_applied_to_a_copy_of_the_source_with_field_and_model_in_role_order', 'K5_matvec_applies_the_operator',
+                    'S10_every_operator_application')
+
+
 def res_tok(s, e):
     return RES(s.uid, s.version, e.uid, e.version)
 
@@ -130,8 +141,8 @@ def roles(args, r, e, m):
     return out
 
 
-def task_residual():
-    col = ob.Collector(PROP, 'solver.residual')
+def task_residual(prop=None):
+    col = ob.Collector(prop or PROP, 'solver.residual')
     col.default_replay = replay_solves
     col.function('solver.residual')
 
@@ -182,7 +193,7 @@ def task_residual():
             return len(nm) == 1 and nm[0][1] is cp.fields['_field']
         return r.value is cp and not nm
     clause(col, 'returns_residual_field_or_its_norm', res, ret)
-    return col.pack()
+    return _pack(col, OPERATOR_CLAUSES if prop else None)
 
 
 # ------------------------------------------------------------------ multigrid, fine-grid loop: M1, M2, M4
@@ -335,8 +346,8 @@ def linop(it, f, args, kw, node):
     return cx.Obj('LinearOperator', dict(kw))
 
 
-def task_krylov(cycle):
-    col = ob.Collector(PROP, f'solver.krylov/cycle_{cycle}')
+def task_krylov(cycle, prop=None):
+    col = ob.Collector(prop or PROP, f'solver.krylov/cycle_{cycle}')
     col.default_replay = replay_solves
     col.function('solver.krylov')
     tol, ref = z3.Reals('tol l2_refe')
@@ -428,12 +439,12 @@ def task_krylov(cycle):
         return ok
     clause(col, 'K5_matvec_applies_the_operator_to_a_fresh_zero_field_with_model_in_role_order', res, amv)
     clause(col, 'K6_source_never_written', res, lambda r: all(e['store'] is not store_of(r.state['s']) for e in r.mutations()))
-    return col.pack()
+    return _pack(col, OPERATOR_CLAUSES if prop else None)
 
 
 # ------------------------------------------------------------------ solve
-def task_solve(sslsolver, cycle, supplied):
-    col = ob.Collector(PROP, f'solver.solve/ssl_{sslsolver}/cycle_{cycle}/efield_{"supplied" if supplied else "fresh"}')
+def task_solve(sslsolver, cycle, supplied, prop=None):
+    col = ob.Collector(prop or PROP, f'solver.solve/ssl_{sslsolver}/cycle_{cycle}/efield_{"supplied" if supplied else "fresh"}')
     col.default_replay = replay_solves
     col.function('solver.solve')
     tol = z3.Real('tol')
@@ -443,16 +454,24 @@ def task_solve(sslsolver, cycle, supplied):
     ret_info, always = z3.Bool('return_info'), z3.Bool('always_return')
     hook = c05.max_level_hook()
 
-    def mk(ctx):
+    def mk(ctx, left=()):
         log = []
         grid = cx.Obj('TensorMesh', {})
         s = new_field('sfield', dtype=dts, grid=grid)
         e = new_field('efield', dtype=dte, grid=grid) if supplied else None
         model = cx.Obj('Model', dict(shape=tuple(shape), grid=grid), mod='models')
+        # whatever an earlier call of solve left on its arguments is still there (the model meanwhile edited in place)
+        for who, attr, value in left:
+            dict(model=model, sfield=s, grid=grid)[who].fields[attr] = value
+
+        def volume_model(it, args, kw, node):
+            vm = mk_vmodel()
+            log.append(('VolumeModel', list(args), dict(kw), vm))
+            return vm
 
         def residual(it, args, kw, node):
             t = res_tok(store_of(args[1]), store_of(args[2]))
-            log.append(('residual', args[2], store_of(args[2]).version))
+            log.append(('residual', args[2], store_of(args[2]).version, args[0]))
             it.ctx.assume(t >= 0)
             return t
 
@@ -464,7 +483,7 @@ def task_solve(sslsolver, cycle, supplied):
         def solver_summary(name):
             def f(it, args, kw, node):
                 vm, sf, ef, var = args
-                log.append((name, ef, store_of(ef).version))
+                log.append((name, ef, store_of(ef).version, vm))
                 bump(it, ef, name)
                 l2 = res_tok(store_of(sf), store_of(ef))          # contract M1 / K4
                 it.ctx.assume(l2 >= 0)
@@ -489,7 +508,7 @@ def task_solve(sslsolver, cycle, supplied):
         def finfo(it, f, args, kw, node):
             return cx.Obj('finfo', dict(tiny=tau / 100))
         ctx.assume(tau > 0)
-        ctx.summaries.update({'solver.residual': residual, 'fields.Field': field, 'models.VolumeModel': lambda it, a, k, n: mk_vmodel(),
+        ctx.summaries.update({'solver.residual': residual, 'fields.Field': field, 'models.VolumeModel': volume_model,
                               'solver.multigrid': solver_summary('solver.multigrid'), 'solver.krylov': solver_summary('solver.krylov'),
                               'solver._print_one_liner': quiet, 'solver.MGParameters.cprint': quiet,
                               'solver.MGParameters.__repr__': lambda it, a, k, n: 'repr',
@@ -500,9 +519,18 @@ def task_solve(sslsolver, cycle, supplied):
         kw = dict(cycle=cycle, tol=tol, return_info=ret_info, always_return=always, semicoarsening=0, linerelaxation=0)
         if supplied:
             kw['efield'] = e
-        return [model, s, sslsolver], dict(kw, verb=z3.Int('verb')), dict(s=s, e=e, log=log)
+        return [model, s, sslsolver], dict(kw, verb=z3.Int('verb')), dict(s=s, e=e, log=log, model=model, grid=grid)
     pre = [z3.Int('verb') >= -1, z3.Int('verb') <= 5] + [x >= 2 for x in shape] + [tol > 0]
     res = cx.run_function('solver.solve', mk, pc0=pre, summaries={}, opts={})
+    # state an earlier call leaves on the model, the source field or the grid (attribute stores), one representative value per attribute
+    left = {}
+    for r in res:
+        for ev in r.events:
+            if ev['kind'] in ('setattr', 'setattr-opaque'):
+                for who in ('model', 'grid', 's'):
+                    if ev['obj'] is r.state[who]:
+                        left.setdefault(('sfield' if who == 's' else who, ev['attr']), ev['value'])
+    res_again = cx.run_function('solver.solve', lambda ctx: mk(ctx, [(w, a, v) for (w, a), v in left.items()]), pc0=pre, summaries={}, opts={}) if left else []
     ok = [r for r in res if r.outcome == 'return']
     col.lia('some_path_returns', [], z3.BoolVal(len(ok) > 0))
     ref = NORM(0, 0)
@@ -637,7 +665,31 @@ def task_solve(sslsolver, cycle, supplied):
     clause(col, 'S7_return_form_follows_do_return_and_return_info', res, s7, pre)
     clause(col, 'S9_source_field_is_never_written', res,
            lambda r: all(e['store'] is not store_of(r.state['s']) for e in r.mutations()), pre)
-    return col.pack()
+
+    def s10(r):
+        """C02: the operator every residual / multigrid / Krylov call applies is the VolumeModel built IN THIS CALL from the model and the source
+        field given to this call (res_again: also when an earlier call left state on the model, the source field or the grid)"""
+        from .c0910 import bind_call
+        current = None
+        used = 0
+        for x in r.state['log']:
+            if x[0] == 'VolumeModel':
+                try:
+                    b = bind_call('models.VolumeModel', x[1], x[2])
+                except Exception:
+                    from .cxutil import UNRECOGNISED
+                    return UNRECOGNISED('the VolumeModel call cannot be bound to its signature')
+                if b.get('model') is not r.state['model'] or b.get('sfield') is not r.state['s']:
+                    return False
+                current = x[3]
+            elif x[0] in ('residual', 'solver.multigrid', 'solver.krylov'):
+                used += 1
+                if current is None or x[3] is not current:
+                    return False
+        return True if used or r.outcome != 'return' else None
+    clause(col, 'S10_every_operator_application_uses_the_volume_model_built_in_this_call_from_the_given_model_and_source_field__whatever_an_earlier_call_left_behind',
+           res + res_again, s10, pre)
+    return _pack(col, OPERATOR_CLAUSES if prop else None)
 
 
 # ------------------------------------------------------------------ solve_source
